@@ -64,6 +64,20 @@ ATOMS: List[Atom] = [
                  "google.protobuf.NullValue nul")),
     Atom("field_keywords", fields=_kw_fields(["from", "class", "import", "global", "lambda", "None", "True", "async", "await", "pass"])),
     Atom("field_builtins", fields=_kw_fields(["list", "dict", "str", "int", "float", "bool", "bytes", "type", "id", "object", "property"])),
+    # a field named like its own python type FOLLOWED by repeated / optional fields of that type
+    Atom("field_builtin_then_repeated", fields=("int32 int", "repeated int32 history", "optional int32 maybe_int",
+                                                "string str", "repeated string names", "optional string maybe_str",
+                                                "bytes bytes", "repeated bytes blobs", "double float", "repeated double samples",
+                                                "bool bool", "repeated bool flags")),
+    # Timestamp / Duration reachable ONLY through proto3-optional fields of the package
+    Atom("optional_wkt_only", imports=("google/protobuf/timestamp.proto", "google/protobuf/duration.proto"),
+         fields=("optional google.protobuf.Timestamp opt_ts", "optional google.protobuf.Duration opt_dur")),
+    # oneof NAMES that re-casing would alter, and two oneofs that differ only in spelling
+    Atom("oneof_names", body=(
+        "  oneof deliveryMethod {{ int32 dm_a = {n0}; string dm_b = {n1}; }}\n"
+        "  oneof HTTPMode {{ int32 fr_a = {n2}; bool fr_b = {n3}; }}\n"
+        "  oneof srcAddr {{ int32 sa_a = {n4}; }}\n"
+        "  oneof src_addr {{ int32 sb_a = {n5}; string sb_b = {n6}; }}\n"), nfields_body=7),
     Atom("field_soft_keywords", fields=_kw_fields(["match", "case", "_", "self", "cls"])),
     Atom("field_digit_names", fields=_kw_fields(["a_1", "x_y_z", "a1b2", "field_1_name", "address_line_1", "v2", "i_18_n"])),
     Atom("field_camel_names", fields=_kw_fields(["fooBar", "FooBaz", "FOO_QUX", "HTTPStatus", "userID", "a", "B"])),
